@@ -256,6 +256,33 @@ SkCase ==
      [TRef(Field(36, "k", <<"gk">>, 1, ""), "sIDE") EXCEPT !.pres = "constant", !.vref = "Side.Buy"],    \* 38
      Msg("data_type", <<"m_data">>), [Data(39, "d", <<"d">>) EXCEPT !.dim = "VARDATAENCODING"] >>        \* 39,40
 
+\* ------------------------------------------- level header element types --
+\* The members sbeppc itself reads or writes in the three support composites
+\* (message header, group dimension, <data> length prefix), each declared
+\* with every primitive type and presence.  SBE wants unsigned integers there
+\* (`must`); for everything else the documentation is silent on whether
+\* sbeppc refuses the schema - but what it accepts has to compile, with every
+\* accessor, filler, size computation and visitor instantiated.
+UnsignedPrims == {"uint8", "uint16", "uint32", "uint64"}
+HdrMembers == [header |-> <<"blockLength", "templateId", "schemaId", "version">>,
+               dim    |-> <<"blockLength", "numInGroup">>,
+               data   |-> <<"length">>]
+HdrCompName == [header |-> "messageHeader", dim |-> "groupSizeEncoding", data |-> "varDataEncoding"]
+HdrPrimSk(role, member, prim, pres) ==
+  LET ms == HdrMembers[role]
+      comp == << PComp(role, <<HdrCompName[role]>>) >> \o
+              [k \in 1 .. Len(ms) |-> IF ms[k] = member
+                                      THEN [IType(1, role \o "_" \o member, <<ms[k]>>, prim, pres)
+                                              EXCEPT !.const = IF pres = "constant" THEN DefConst[prim] ELSE ""]
+                                      ELSE IType(1, role, <<ms[k]>>, "uint16", "required")] \o
+              (IF role = "data" THEN << [IType(1, role, <<"varData">>, "uint8", "required") EXCEPT !.len = 0] >> ELSE <<>>)
+      b == Len(comp)
+      body == CASE role = "header" -> << Msg("message", <<"m">>), Field(b + 1, "f", <<"f">>, 0, "uint8") >>
+                [] role = "dim"    -> << Msg("message", <<"m">>), Group(b + 1, "group", <<"g">>), Field(b + 2, "f", <<"f">>, 0, "uint8") >>
+                [] OTHER           -> << Msg("message", <<"m">>), Field(b + 1, "f", <<"f">>, 0, "uint8"), Data(b + 1, "data", <<"d">>) >>
+      all == comp \o body
+  IN [k \in 1 .. Len(all) |-> [all[k] EXCEPT !.must = (prim \in UnsignedPrims /\ pres = "required")]]
+
 \* -------------------------------------------------------------- blockLength --
 \* A message / group whose block is `n` bytes long, with the header field that
 \* has to carry that number being `hprim`.  When n does not fit, the schema
